@@ -2,6 +2,8 @@ package props
 
 import (
 	"fmt"
+	"gopkg.in/yaml.v3"
+	"io"
 	"os"
 	"os/exec"
 	"path/filepath"
@@ -298,6 +300,7 @@ func (c02) Run(c *core.Ctx) {
 	}
 	// (4) declaration-order permutations of the YAML text
 	c02permutations(c)
+	c02corpusOrders(c, inputs)
 	// (5) histories
 	c02histories(c, inputs)
 }
@@ -406,6 +409,171 @@ func c02permutations(c *core.Ctx) {
 			return core.Outcome{Class: id, Sample: doc}
 		})
 	})
+}
+
+// c02corpusOrders: in every YAML file of every corpus input, the entries of each top-level section (services, networks,
+// volumes, secrets, configs) are re-declared in other orders (all orders up to 3 entries, else reversal and rotations);
+// the document is re-encoded from its node tree, so anchors, aliases and tags stay where they are.
+func c02corpusOrders(c *core.Ctx, inputs map[string]*Scn) {
+	base := filepath.Join(Scratch(), "c02ord")
+	for _, name := range sortedKeys(inputs) {
+		src := inputs[name]
+		for _, fname := range sortedKeys(src.Files) {
+			if !strings.HasSuffix(fname, ".yaml") && !strings.HasSuffix(fname, ".yml") {
+				continue
+			}
+			var docs []*yaml.Node
+			dec := yaml.NewDecoder(strings.NewReader(src.Files[fname]))
+			okParse := true
+			for {
+				var n yaml.Node
+				err := dec.Decode(&n)
+				if err == io.EOF {
+					break
+				}
+				if err != nil {
+					okParse = false
+					break
+				}
+				docs = append(docs, &n)
+			}
+			if !okParse {
+				continue
+			}
+			// the reference is the same file re-encoded from its node tree in the original order, so that only the
+			// order differs between the two loads
+			var sb0 strings.Builder
+			enc0 := yaml.NewEncoder(&sb0)
+			for _, d := range docs {
+				if err := enc0.Encode(d); err != nil {
+					okParse = false
+				}
+			}
+			enc0.Close()
+			if !okParse {
+				continue
+			}
+			text0 := sb0.String()
+			var ref c02sig
+			haveRef := false
+			for di, doc := range docs {
+				if doc.Kind != yaml.DocumentNode || len(doc.Content) != 1 || doc.Content[0].Kind != yaml.MappingNode {
+					continue
+				}
+				top := doc.Content[0]
+				for i := 0; i+1 < len(top.Content); i += 2 {
+					sec := top.Content[i].Value
+					m := top.Content[i+1]
+					if m.Kind != yaml.MappingNode || len(m.Content) < 4 {
+						continue
+					}
+					switch sec {
+					case "services", "networks", "volumes", "secrets", "configs":
+					default:
+						continue
+					}
+					n := len(m.Content) / 2
+					var orders [][]int
+					if n <= 3 {
+						permute(n, func(p []int) { orders = append(orders, append([]int{}, p...)) })
+					} else {
+						rev := make([]int, n)
+						for k := range rev {
+							rev[k] = n - 1 - k
+						}
+						orders = append(orders, rev)
+						for r := 1; r < n && r <= 3; r++ {
+							rot := make([]int, n)
+							for k := range rot {
+								rot[k] = (k + r) % n
+							}
+							orders = append(orders, rot)
+						}
+					}
+					orig := append([]*yaml.Node{}, m.Content...)
+					for oi, ord := range orders {
+						identity := true
+						for k, x := range ord {
+							if k != x {
+								identity = false
+							}
+						}
+						if identity {
+							continue
+						}
+						if c.Expired() {
+							return
+						}
+						perm := make([]*yaml.Node, 0, len(orig))
+						for _, x := range ord {
+							perm = append(perm, orig[2*x], orig[2*x+1])
+						}
+						m.Content = perm
+						var sb strings.Builder
+						enc := yaml.NewEncoder(&sb)
+						encOK := true
+						for _, d := range docs {
+							if err := enc.Encode(d); err != nil {
+								encOK = false
+							}
+						}
+						enc.Close()
+						m.Content = orig
+						if !encOK {
+							continue
+						}
+						text := sb.String()
+						// an alias must not end up in front of its anchor: the permuted text has to parse
+						var probe yaml.Node
+						pd := yaml.NewDecoder(strings.NewReader(text))
+						parseOK := true
+						for {
+							err := pd.Decode(&probe)
+							if err == io.EOF {
+								break
+							}
+							if err != nil {
+								parseOK = false
+								break
+							}
+						}
+						if !parseOK {
+							continue
+						}
+						name, fname, sec, text := name, fname, sec, text
+						id := fmt.Sprintf("order/%s/%s/doc%d/%s/%d", name, fname, di, sec, oi)
+						c.Do(id, func() core.Outcome {
+							files := map[string]string{}
+							for k, v := range src.Files {
+								files[k] = v
+							}
+							if !haveRef {
+								files[fname] = text0
+								s0 := &Scn{Files: files, Main: src.Main, Env: src.Env, WD: src.WD, Name: src.Name, Opts: src.Opts}
+								root := filepath.Join(base, name, "ref")
+								s0.MaterialiseAt(root)
+								ref, _ = c02run(s0, root, 0, 0, 0, 0)
+								haveRef = true
+							}
+							files[fname] = text
+							s := &Scn{Files: files, Main: src.Main, Env: src.Env, WD: src.WD, Name: src.Name, Opts: src.Opts}
+							root := filepath.Join(base, name, "ref") // same directory: absolute paths in the result stay comparable
+							s.MaterialiseAt(root)
+							sg, _ := c02run(s, root, 0, 0, 0, 0)
+							c.Count("states", 1)
+							c.Count("traces_validated_against_impl", 1)
+							if d := c02diff(ref, sg); d != "" {
+								return core.Outcome{Class: "diff", Sample: map[string]any{"input": name, "file": fname, "section": sec, "text": text},
+									Viol: &core.Violation{Key: "declaration-order:" + name + ":" + sec,
+										Msg: fmt.Sprintf("input %q: declaring the %s of %s in another order changes the result: %s", name, sec, fname, d), Detail: text}}
+							}
+							return core.Outcome{Class: id, Sample: map[string]any{"input": name, "file": fname, "section": sec}}
+						})
+					}
+				}
+			}
+		}
+	}
 }
 
 // ---------------------------------------------------------------- histories
